@@ -1,9 +1,16 @@
 //! Tree sibling order through `__verif::tree_dump`.
 //!
-//! Case: `<attr> <rev> <item> <item> ...`, items with `;`-separated fields
+//! Case: `<attr> <rev> [F:<filter>] <item> <item> ...`, items with `;`-separated fields
 //! (names percent-escaped):
 //!   `B;rank;module_path;display;raw;file;line;col;args`   args = `-` | `<k>=<names>`
 //!   `G;rank;module_path;display;raw;file;line;col;gen`    gen  = `-` | `[t:<i>=<name>,...][!c:<kind>:<v>=<name>,...]`
+//! const kinds: `i` i64, `j` i128, `k` i8, `c` char, `b` bool.
+//! `F:-` keeps every path, `F:<text>` drops the paths containing `<text>`: the
+//! pipeline is from_benches -> insert_group -> retain -> sort_by_attr exactly as
+//! `Divan::run_action` (retain renders every display name before the sort).
+//! The same entries are then sorted a second time in this process, by another
+//! attribute in the other direction (state carried by the entries between two
+//! sorts); output: `<first dump> || <second dump>`.
 //! `rank` fixes the relative addresses of the entries: all `BenchEntry` and
 //! `GroupEntry` values live in one leaked arena, in rank order.  Generic
 //! benchmarks live in one leaked array per type, in declaration order, as the
@@ -125,7 +132,7 @@ struct Item {
     meta: EntryMeta,
     args: Option<(usize, Vec<String>)>,
     types: Vec<(usize, String)>,
-    consts: Option<(char, Vec<(i64, String)>)>,
+    consts: Option<(char, Vec<(i128, String)>)>,
 }
 
 fn parse_item(tok: &str) -> Item {
@@ -164,7 +171,7 @@ fn parse_item(tok: &str) -> Item {
                         .split(',')
                         .map(|t| {
                             let (x, n) = t.split_once('=').unwrap();
-                            (x.parse::<i64>().unwrap(), dec_name(n))
+                            (x.parse::<i128>().unwrap(), dec_name(n))
                         })
                         .collect();
                     it.consts = Some((k.chars().next().unwrap(), vals));
@@ -178,11 +185,21 @@ fn parse_item(tok: &str) -> Item {
     it
 }
 
-fn entry_const(kind: char, value: i64, name: &str) -> EntryConst {
+fn entry_const(kind: char, value: i128, name: &str) -> EntryConst {
     match kind {
         'i' => {
+            let x = value as i64;
+            assert_eq!(x.to_string(), name, "const name");
+            EntryConst::new::<i64>(Box::leak(Box::new(x)))
+        }
+        'j' => {
             assert_eq!(value.to_string(), name, "const name");
-            EntryConst::new::<i64>(Box::leak(Box::new(value)))
+            EntryConst::new::<i128>(Box::leak(Box::new(value)))
+        }
+        'k' => {
+            let x = value as i8;
+            assert_eq!(x.to_string(), name, "const name");
+            EntryConst::new::<i8>(Box::leak(Box::new(x)))
         }
         'c' => {
             let c = char::from_u32(value as u32).expect("char");
@@ -198,11 +215,44 @@ fn entry_const(kind: char, value: i64, name: &str) -> EntryConst {
     }
 }
 
+fn dump_line(dump: &[String]) -> String {
+    if dump.is_empty() {
+        return "-".to_string();
+    }
+    dump.iter()
+        .map(|l| {
+            let f: Vec<&str> = l.split('\t').collect();
+            let mut s = format!("{}:{}:{}", f[0], f[1], enc2(f[2]));
+            if f.len() > 3 {
+                s.push_str(":a:");
+                if f.len() == 4 {
+                    s.push_str("%0");
+                } else {
+                    s.push_str(&f[4..].iter().map(|a| enc2(a)).collect::<Vec<_>>().join(","));
+                }
+            }
+            s
+        })
+        .collect::<Vec<_>>()
+        .join(" ")
+}
+
+/// The second sort of a case: another attribute, the other direction.
+pub fn second_sort(attr: u8, reverse: bool) -> (u8, bool) {
+    (match attr { 0 => 1, 1 => 0, _ => 1 }, !reverse)
+}
+
 pub fn tree(line: &str) -> String {
     let toks = hxlib::toks(line);
     let attr = attr_of(toks[0]);
     let reverse = toks[1] == "1";
-    let items: Vec<Item> = toks[2..].iter().filter(|t| !t.is_empty()).map(|t| parse_item(t)).collect();
+    // optional third token `F:<text>`; without it every path is kept (a filter is always passed)
+    let (drop_text, first_item): (Option<String>, usize) = match toks.get(2).and_then(|t| t.strip_prefix("F:")) {
+        Some("-") => (None, 3),
+        Some(t) => (Some(dec_name(t)), 3),
+        None => (None, 2),
+    };
+    let items: Vec<Item> = toks[first_item..].iter().filter(|t| !t.is_empty()).map(|t| parse_item(t)).collect();
 
     // arena in rank order
     let mut order: Vec<usize> = (0..items.len()).collect();
@@ -210,7 +260,7 @@ pub fn tree(line: &str) -> String {
     let mut arena: Vec<Slot> = Vec::with_capacity(items.len());
     let mut slot_of = vec![0usize; items.len()];
     let mut items: Vec<Option<Item>> = items.into_iter().map(Some).collect();
-    let mut extra: Vec<(usize, Vec<(usize, String)>, Option<(char, Vec<(i64, String)>)>)> = vec![];
+    let mut extra: Vec<(usize, Vec<(usize, String)>, Option<(char, Vec<(i128, String)>)>)> = vec![];
     for (slot, &i) in order.iter().enumerate() {
         let it = items[i].take().unwrap();
         slot_of[i] = slot;
@@ -305,24 +355,12 @@ pub fn tree(line: &str) -> String {
             Slot::G(g) => groups.push(g),
         }
     }
-    let dump = v::tree_dump(&benches, &groups, None, Some((attr, reverse)));
-    if dump.is_empty() {
-        return "-".to_string();
-    }
-    dump.iter()
-        .map(|l| {
-            let f: Vec<&str> = l.split('\t').collect();
-            let mut s = format!("{}:{}:{}", f[0], f[1], enc2(f[2]));
-            if f.len() > 3 {
-                s.push_str(":a:");
-                if f.len() == 4 {
-                    s.push_str("%0");
-                } else {
-                    s.push_str(&f[4..].iter().map(|a| enc2(a)).collect::<Vec<_>>().join(","));
-                }
-            }
-            s
-        })
-        .collect::<Vec<_>>()
-        .join(" ")
+    let mut keep = |p: &str| match &drop_text {
+        None => true,
+        Some(t) => !p.contains(t.as_str()),
+    };
+    let first = v::tree_dump(&benches, &groups, Some(&mut keep), Some((attr, reverse)));
+    let (attr2, reverse2) = second_sort(attr, reverse);
+    let second = v::tree_dump(&benches, &groups, Some(&mut keep), Some((attr2, reverse2)));
+    format!("{} || {}", dump_line(&first), dump_line(&second))
 }
